@@ -6,6 +6,10 @@ explicit copy of the negative-binomial gradient as it was at the pinned commit.
 -/
 import PyttbModel.Lemmas.GcpExpr
 import PyttbModel.Generated.Handles
+import Mathlib.Tactic.Linarith
+import Mathlib.Tactic.Positivity
+import Mathlib.Tactic.FieldSimp
+import Mathlib.Tactic.SplitIfs
 set_option linter.unusedSimpArgs false
 namespace Pyttb
 open Handles Expr Filter Topology
@@ -15,7 +19,64 @@ theorem EPS_pos : (0 : ℝ) < ((EPS : ℚ) : ℝ) := by
 
 /-- closes the algebraic identity `evalR (D loss) = evalR grad` after `simp` -/
 macro "gcp_close" : tactic =>
-  `(tactic| first | ring1 | (field_simp; ring1) | (field_simp; done))
+  `(tactic| first | ring1 | (field_simp; ring1) | (field_simp; done)
+                  | (simp only [Real.exp_neg]; field_simp; ring1) | (simp only [Real.exp_neg]; field_simp; done))
+
+/-- one side condition of `Defined` (positivity of `m + EPS`, `1 + m`, `exp m + 1`, a non-zero
+denominator, …) from the hypotheses in scope (`0 ≤ m`, `0 < EPS`, `b ≠ 0`, …) -/
+macro "gcp_side" : tactic =>
+  `(tactic| first | trivial | assumption | positivity | linarith
+                  | (apply ne_of_gt; first | positivity | linarith)
+                  | (apply ne_of_lt; first | positivity | linarith)
+                  | (intro hcontra; first | (simp_all; done) | linarith | (exfalso; simp_all [sub_eq_zero]; done))
+                  | (simp_all [sub_eq_zero]; done) | nlinarith)
+
+/-- `Defined` of a generated expression: unfold, split the conjunction, discharge every side condition -/
+macro "gcp_defined" "[" ds:Lean.Parser.Tactic.simpLemma,* "]" : tactic =>
+  `(tactic| (simp only [$ds,*, Defined, evalR, noVar, isBool, Bool.and_self, Bool.and_true, Bool.true_and]
+             <;> (repeat' apply And.intro) <;> (try push_cast) <;> gcp_side))
+
+/-- the facts about a model value `m ≥ 0` that the side conditions need, in both spellings -/
+macro "gcp_facts" m:term:max hm:term:max : tactic =>
+  `(tactic| (have he := EPS_pos
+             have h1 : 0 < $m + 1 := by linarith [$hm]
+             have h1' : 0 < 1 + $m := by linarith [$hm]
+             have h2 : 0 < $m + ((EPS : ℚ) : ℝ) := by linarith [$hm]
+             have h2' : 0 < ((EPS : ℚ) : ℝ) + $m := by linarith [$hm]))
+
+/-- identities between real powers of one positive base whose exponents differ by integers (`yᵇ`, `yᵇ⁻¹`,
+`yᵇ⁻²`): every power is written as `yᵇ` times a power of `y⁻¹`, then `field_simp; ring` -/
+macro "gcp_rpow_close" : tactic =>
+  `(tactic| first
+      | gcp_close
+      | (simp (disch := first | assumption | positivity) only [Real.rpow_sub, Real.rpow_add, Real.rpow_one,
+            Real.rpow_two, Real.rpow_natCast, sub_sub, one_add_one_eq_two] <;> gcp_close)
+      | (rw [show ∀ b : ℝ, b - 1 - 1 = b - 2 from fun b => by ring] <;> gcp_close))
+
+/-- one piece of a piecewise-polynomial identity -/
+macro "pw_arith" : tactic =>
+  `(tactic| first | done | linarith | nlinarith | (exfalso; linarith) | (simp_all; done))
+
+/-- split every condition and decide the pieces by arithmetic; conditions that only become visible after a
+simplification are split again (three rounds) -/
+macro "pw_split" : tactic =>
+  `(tactic| (split_ifs <;> first | pw_arith | (simp_all; first | pw_arith |
+      (split_ifs <;> first | pw_arith | (simp_all; first | pw_arith |
+        (split_ifs <;> first | pw_arith | (simp_all; pw_arith)))))))
+
+/-- piecewise-polynomial identities in `d` (= data − model) and the threshold: unfold the generated
+expression, split on the sign of `d` (which removes `|·|`, `sgn`, `√(·²)`), split every remaining
+condition (`np.where`, masks, `np.minimum`, `np.clip`, …) and close each piece by (non)linear arithmetic -/
+macro "piecewise" "[" ds:Lean.Parser.Tactic.simpLemma,* "]" " on " d:term : tactic =>
+  `(tactic|
+    (simp only [$ds,*, evalR]
+     rcases lt_trichotomy $d 0 with hd | hd | hd
+     · simp [indLt, indZero, sel, Real.sqrt_sq_eq_abs, abs_of_neg hd, sgn_of_neg hd]
+       try pw_split
+     · simp [indLt, indZero, sel, Real.sqrt_sq_eq_abs, hd, sgn_zero]
+       try pw_split
+     · simp [indLt, indZero, sel, Real.sqrt_sq_eq_abs, abs_of_pos hd, sgn_of_pos hd]
+       try pw_split))
 
 /-! ### specification side of the selection table -/
 
@@ -61,31 +122,67 @@ def negbinLossPinned : Expr :=
 def negbinGradPinned : Expr :=
   .sub (.div (.add .param (.const 1)) (.add (.const 1) .var)) (.div .data (.add .var (.const EPS)))
 
+/-! ### Bernoulli-logit: the overflow-safe spelling of the softplus -/
+
+/-- log-sum-exp stabilisation: `y + log (1 + e^{-y}) = log (e^y + 1)` -/
+theorem log1p_exp_neg (y : ℝ) : y + Real.log (1 + Real.exp (-y)) = Real.log (Real.exp y + 1) := by
+  have h1 : (0:ℝ) < 1 + Real.exp (-y) := by positivity
+  have h2 : (0:ℝ) < Real.exp y := Real.exp_pos y
+  calc y + Real.log (1 + Real.exp (-y)) = Real.log (Real.exp y) + Real.log (1 + Real.exp (-y)) := by rw [Real.log_exp]
+    _ = Real.log (Real.exp y * (1 + Real.exp (-y))) := (Real.log_mul h2.ne' h1.ne').symm
+    _ = Real.log (Real.exp y + 1) := by
+        congr 1
+        rw [mul_add, mul_one, ← Real.exp_add, add_neg_cancel, Real.exp_zero]
+
+/-- the Bernoulli-logit loss in closed form and its derivative -/
+theorem logit_spec_deriv (x m : ℝ) :
+    HasDerivAt (fun y => Real.log (Real.exp y + 1) - x * y) (Real.exp m / (Real.exp m + 1) - x) m := by
+  have h1 : (0:ℝ) < Real.exp m + 1 := by positivity
+  have := (((Real.hasDerivAt_exp m).add_const 1).log h1.ne').fun_sub ((hasDerivAt_id' m).const_mul x)
+  simpa using this
+
+/-- closed form `log (e^y + 1) − x y` of a softplus spelled `max(y, 0) + log1p(exp(−|y|)) − x y` (or the like): split
+on the sign of `y`, the pieces differ by the log-sum-exp identity -/
+macro "softplus_closed" "[" ds:Lean.Parser.Tactic.simpLemma,* "]" " at " y:term : tactic =>
+  `(tactic|
+    (have k1 := log1p_exp_neg $y
+     have k2 : Real.log (1 + Real.exp $y) = Real.log (Real.exp $y + 1) := by rw [add_comm]
+     have k3 : Real.log (Real.exp (-$y) + 1) = Real.log (1 + Real.exp (-$y)) := by rw [add_comm]
+     simp only [$ds,*, evalR]
+     rcases lt_trichotomy $y 0 with hd | hd | hd
+     · simp [indLt, indZero, sel, abs_of_neg hd, hd, not_lt.2 hd.le]
+       try linarith
+     · simp [indLt, indZero, sel, hd]
+       try linarith
+     · simp [indLt, indZero, sel, abs_of_pos hd, hd, not_lt.2 hd.le]
+       try linarith))
+
 /-! ### Huber -/
 
-/-- closed form of the generated Huber loss -/
-theorem huber_closed (x t y : ℝ) :
+/-- closed form of the generated Huber loss (threshold `t ≥ 0`), whatever way the source spells the two pieces -/
+theorem huber_closed (x t y : ℝ) (ht : 0 ≤ t) :
     huber.evalR x t y = if |x - y| < t then (x - y) ^ 2 else 2 * t * |x - y| - t ^ 2 := by
-  by_cases h : |x - y| < t <;> simp [huber, evalR, h, abs_sub_comm y x]
+  piecewise [huber] on (x - y)
 
 /-- closed form of the generated Huber gradient -/
-theorem huber_grad_closed (x t y : ℝ) :
+theorem huber_grad_closed (x t y : ℝ) (ht : 0 ≤ t) :
     huber_grad.evalR x t y = if |x - y| < t then -2 * (x - y) else -(2 * t * sgn (x - y)) := by
-  by_cases h : |x - y| < t <;> simp [huber_grad, evalR, h, abs_sub_comm y x]
+  piecewise [huber_grad] on (x - y)
 
 /-- Huber, open inner region `|x - m| < t` (by hand: the loss is `(x - m)²` near `m`). -/
 theorem huber_deriv_inside (x t m : ℝ) (h : |x - m| < t) :
     HasDerivAt (fun m => huber.evalR x t m) (huber_grad.evalR x t m) m := by
+  have ht : 0 ≤ t := (abs_nonneg _).trans h.le
   have hc : ContinuousAt (fun y : ℝ => |x - y|) m := by fun_prop
   have ev : ∀ᶠ y in 𝓝 m, |x - y| < t := hc.eventually_lt continuousAt_const h
   have hd : HasDerivAt (fun y : ℝ => (x - y) ^ 2) (-2 * (x - m)) m := by
     have := ((hasDerivAt_id' m).const_sub x).fun_pow 2
     refine this.congr_deriv ?_
     simp
-  rw [huber_grad_closed, if_pos h]
+  rw [huber_grad_closed _ _ _ ht, if_pos h]
   refine hd.congr_of_eventuallyEq ?_
   filter_upwards [ev] with y hy
-  rw [huber_closed, if_pos hy]
+  rw [huber_closed _ _ _ ht, if_pos hy]
 
 /-- Huber, open outer region `t < |x - m|`. -/
 theorem huber_deriv_outside (x t m : ℝ) (ht : 0 ≤ t) (h : t < |x - m|) :
@@ -111,10 +208,10 @@ theorem huber_deriv_outside (x t m : ℝ) (ht : 0 ≤ t) (h : t < |x - m|) :
         simp [abs_of_pos hy]
     refine ((h2.const_mul (2 * t)).sub_const (t ^ 2)).congr_deriv ?_
     ring
-  rw [huber_grad_closed, if_neg (not_lt.2 h.le)]
+  rw [huber_grad_closed _ _ _ ht, if_neg (not_lt.2 h.le)]
   refine hd.congr_of_eventuallyEq ?_
   filter_upwards [ev] with y hy
-  rw [huber_closed, if_neg (not_lt.2 hy.le)]
+  rw [huber_closed _ _ _ ht, if_neg (not_lt.2 hy.le)]
 
 /-- Huber at the kink `|x - m| = t`: the quadratic and the linear piece meet with equal value
 and equal one-sided derivatives. -/
@@ -130,7 +227,7 @@ theorem huber_deriv_kink (x t m : ℝ) (ht : 0 < t) (h : |x - m| = t) :
       simpa using (hasDerivAt_id' m).const_sub x
     refine (((h1.const_mul c).const_mul (2 * t)).sub_const (t ^ 2)).congr_deriv ?_
     ring
-  rw [huber_grad_closed, if_neg (by rw [h]; exact lt_irrefl t)]
+  rw [huber_grad_closed _ _ _ ht.le, if_neg (by rw [h]; exact lt_irrefl t)]
   -- a neighbourhood of m of radius t
   have near : ∀ᶠ y in 𝓝 m, |y - m| < t := by
     have hc : ContinuousAt (fun y : ℝ => |y - m|) m := by fun_prop
@@ -143,14 +240,14 @@ theorem huber_deriv_kink (x t m : ℝ) (ht : 0 < t) (h : |x - m| = t) :
     refine hasDerivAt_of_left_right ((hlin 1).congr_deriv (by ring)) (hq.congr_deriv (by rw [hp]; ring)) ?_ ?_
     · filter_upwards [near] with y hy hle
       have : t ≤ x - y := by linarith
-      rw [huber_closed, if_neg (not_lt.2 (le_trans this (le_abs_self _))), abs_of_nonneg (le_trans ht.le this)]
+      rw [huber_closed _ _ _ ht.le, if_neg (not_lt.2 (le_trans this (le_abs_self _))), abs_of_nonneg (le_trans ht.le this)]
       ring
     · filter_upwards [near] with y hy hle
       have hy' := abs_lt.1 hy
       rcases eq_or_lt_of_le hle with he | hlt
       · subst he
-        rw [huber_closed, if_neg (by rw [h]; exact lt_irrefl t), h, hp]; ring
-      · rw [huber_closed, if_pos (abs_lt.2 ⟨by linarith, by linarith⟩)]
+        rw [huber_closed _ _ _ ht.le, if_neg (by rw [h]; exact lt_irrefl t), h, hp]; ring
+      · rw [huber_closed _ _ _ ht.le, if_pos (abs_lt.2 ⟨by linarith, by linarith⟩)]
   · -- x - m = -t
     have hs : sgn (x - m) = -1 := sgn_of_neg (by linarith)
     rw [hs]
@@ -159,11 +256,11 @@ theorem huber_deriv_kink (x t m : ℝ) (ht : 0 < t) (h : |x - m| = t) :
       have hy' := abs_lt.1 hy
       rcases eq_or_lt_of_le hle with he | hlt
       · subst he
-        rw [huber_closed, if_neg (by rw [h]; exact lt_irrefl t), h, hn]; ring
-      · rw [huber_closed, if_pos (abs_lt.2 ⟨by linarith, by linarith⟩)]
+        rw [huber_closed _ _ _ ht.le, if_neg (by rw [h]; exact lt_irrefl t), h, hn]; ring
+      · rw [huber_closed _ _ _ ht.le, if_pos (abs_lt.2 ⟨by linarith, by linarith⟩)]
     · filter_upwards [near] with y hy hle
       have : x - y ≤ -t := by linarith
-      rw [huber_closed, if_neg (not_lt.2 (by rw [abs_of_nonpos (by linarith)]; linarith)),
+      rw [huber_closed _ _ _ ht.le, if_neg (not_lt.2 (by rw [abs_of_nonpos (by linarith)]; linarith)),
         abs_of_nonpos (by linarith)]
       ring
 
